@@ -25,7 +25,7 @@ structure State where
   /-- `VOTERS` -/
   voters : AMap Addr Nat
   core : Core
-  deriving Repr, Inhabited
+  deriving Repr, DecidableEq, Inhabited
 
 structure InstMsg where
   voters : List (AddrArg × Nat)
@@ -146,7 +146,7 @@ structure World where
   /-- does the external contract addressed by `Msg.other` currently accept calls -/
   sinkOk : Bool
   log : List Event
-  deriving Repr, Inhabited
+  deriving Repr, DecidableEq, Inhabited
 
 def balance (w : World) (a : Addr) (denom : String) : Nat := (w.bank.get? (a, denom)).getD 0
 
